@@ -129,7 +129,23 @@ fn scaled_data(r: &ScaledRecipe) -> String {
 
 // ---------------------------------------------------------------- one recipe
 
-struct Stats { what: &'static str }
+struct Stats { what: &'static str, tainted: bool }
+impl Stats {
+    /// known finding F-C15-1: whatever the symptom, a failure on a recipe whose metadata is not JSON-representable has one signature
+    fn sig(&self, s: &str) -> String { if self.tainted { "c15:metadata-not-json-representable".into() } else { s.into() } }
+}
+
+/// the metadata contains (recursively) a key that is not a string, or a tagged value: JSON cannot carry it
+fn yaml_not_json(v: &serde_yaml::Value) -> bool {
+    use serde_yaml::Value as Y;
+    match v {
+        Y::Mapping(m) => m.iter().any(|(k, v)| !k.is_string() || yaml_not_json(v)),
+        Y::Sequence(s) => s.iter().any(yaml_not_json),
+        Y::Tagged(_) => true,
+        _ => false,
+    }
+}
+fn meta_tainted(m: &serde_yaml::Mapping) -> bool { m.iter().any(|(k, v)| !k.is_string() || yaml_not_json(v)) }
 
 /// byte range of `s` widened to char boundaries
 fn cut(s: &str, mut a: usize, mut b: usize) -> &str {
@@ -145,7 +161,7 @@ fn check_json<T: serde::Serialize + serde::de::DeserializeOwned>(ctx: &mut Ctx, 
         Err(p) => { ctx.oracle_fail(desc.to_string(), format!("{}: serde_json::to_string panics: {p}", st.what), panic_signature(&p)); return; }
         Ok(Err(e)) => {
             ctx.count(&format!("{}:to_string-fails", st.what));
-            if finite { ctx.oracle_fail(desc.to_string(), format!("{}: does not serialize to JSON: {e}", st.what), "c15:to_string".into()); }
+            if finite { ctx.oracle_fail(desc.to_string(), format!("{}: does not serialize to JSON: {e}", st.what), st.sig("c15:to_string")); }
             return;
         }
         Ok(Ok(js)) => js,
@@ -159,19 +175,19 @@ fn check_json<T: serde::Serialize + serde::de::DeserializeOwned>(ctx: &mut Ctx, 
         Err(p) => { ctx.oracle_fail(desc.to_string(), format!("{}: serde_json::from_str panics: {p}", st.what), panic_signature(&p)); return; }
         Ok(Err(e)) => {
             ctx.count(&format!("{}:from_str-fails", st.what));
-            if finite { ctx.oracle_fail(desc.to_string(), format!("{}: its own JSON does not deserialize: {e}; json {}", st.what, cut(&js, 0, 300)), "c15:from_str".into()); }
+            if finite { ctx.oracle_fail(desc.to_string(), format!("{}: its own JSON does not deserialize: {e}; json {}", st.what, cut(&js, 0, 300)), st.sig("c15:from_str")); }
             return;
         }
         Ok(Ok(b)) => b,
     };
     if !finite { ctx.count(&format!("{}:nonfinite-roundtrips-anyway", st.what)); return; }
     if let Some(eq) = eq {
-        if !eq(&back, r) { ctx.oracle_fail(desc.to_string(), format!("{}: deserialized recipe is not equal to the original; json {}", st.what, cut(&js, 0, 300)), "c15:not-equal".into()); return; }
+        if !eq(&back, r) { ctx.oracle_fail(desc.to_string(), format!("{}: deserialized recipe is not equal to the original; json {}", st.what, cut(&js, 0, 300)), st.sig("c15:not-equal")); return; }
     }
     match serde_json::to_string(&back) {
         Ok(js2) if js2 == js => {}
-        Ok(js2) => { let k = js.bytes().zip(js2.bytes()).position(|(a, b)| a != b).unwrap_or(0); ctx.oracle_fail(desc.to_string(), format!("{}: re-serialization differs at byte {k}: {:?} vs {:?}", st.what, cut(&js, k.saturating_sub(30), k + 40), cut(&js2, k.saturating_sub(30), k + 40)), "c15:reserialize".into()); }
-        Err(e) => ctx.oracle_fail(desc.to_string(), format!("{}: re-serialization fails: {e}", st.what), "c15:reserialize".into()),
+        Ok(js2) => { let k = js.bytes().zip(js2.bytes()).position(|(a, b)| a != b).unwrap_or(0); ctx.oracle_fail(desc.to_string(), format!("{}: re-serialization differs at byte {k}: {:?} vs {:?}", st.what, cut(&js, k.saturating_sub(30), k + 40), cut(&js2, k.saturating_sub(30), k + 40)), st.sig("c15:reserialize")); }
+        Err(e) => ctx.oracle_fail(desc.to_string(), format!("{}: re-serialization fails: {e}", st.what), st.sig("c15:reserialize")),
     }
 }
 
@@ -208,11 +224,13 @@ fn one(ctx: &mut Ctx, parser: &CooklangParser, rng: &mut Rng, input: &str) {
     if r.servings().is_some() { ctx.count("recipe:servings"); }
     let fin = scalable_finite(&r);
     if !fin { ctx.count("recipe:non-finite"); }
+    let tainted = meta_tainted(&r.metadata.map);
+    if tainted { ctx.count("recipe:metadata-not-json-representable"); }
     let op = match &meta_sexp {
         Ok(m) => Some(format!("json scalable ( full {m} {} {} )", recipe_sexp::opt(r.servings(), |s| recipe_sexp::list(s, |n| n.to_string())), recipe_sexp::scalable_recipe(&r))),
-        Err(e) => { if fin { ctx.oracle_fail(desc.clone(), format!("parsed metadata cannot be written as JSON: {e}"), "c15:metadata-not-json".into()); } None }
+        Err(e) => { if fin { ctx.oracle_fail(desc.clone(), format!("parsed metadata cannot be written as JSON: {e}"), "c15:metadata-not-json-representable".into()); } None }
     };
-    check_json(ctx, &Stats { what: "scalable" }, &desc, &r, fin, op, Some(&|a: &ScalableRecipe, b: &ScalableRecipe| a == b));
+    check_json(ctx, &Stats { what: "scalable", tainted }, &desc, &r, fin, op, Some(&|a: &ScalableRecipe, b: &ScalableRecipe| a == b));
 
     // scaled / converted variants (ScalableRecipe is not Clone: parse again)
     let factor = match rng.below(6) { 0 => 1.0, 1 => 2.0, 2 => 0.5, 3 => 1.0 / 3.0, _ => (rng.unit_f64() * 6.0 * 1000.0).round() / 1000.0 };
@@ -232,7 +250,7 @@ fn one(ctx: &mut Ctx, parser: &CooklangParser, rng: &mut Rng, input: &str) {
         if s.ingredients.iter().any(|i| matches!(i.quantity.as_ref().map(|q| q.value()), Some(Value::Number(Number::Fraction { .. })))) { ctx.count("scaled:fraction"); }
         let op = meta_sexp.as_ref().ok().map(|m| format!("json scaled ( full {m} {} {} )", scaled_data(&s), recipe_sexp::scaled_recipe(&s)));
         let d = format!("{input:?} after {name} (factor {factor})");
-        check_json(ctx, &Stats { what: "scaled" }, &d, &s, fin, op, None);
+        check_json(ctx, &Stats { what: "scaled", tainted }, &d, &s, fin, op, None);
     }
 }
 
@@ -363,7 +381,7 @@ generator; each accepted recipe is checked as parsed (ScalableRecipe) and after 
                     let fin = scaled_finite(&s);
                     ctx.count(if fin { "factor:extreme-but-finite" } else { "scaled:non-finite" });
                     let op = fin.then(|| format!("json scaled ( full ( ) {} {} )", scaled_data(&s), recipe_sexp::scaled_recipe(&s)));
-                    check_json(ctx, &Stats { what: "scaled" }, &format!("{t:?} scaled by {f:?}"), &s, fin, op, None);
+                    check_json(ctx, &Stats { what: "scaled", tainted: false }, &format!("{t:?} scaled by {f:?}"), &s, fin, op, None);
                 }
             }
         }
